@@ -531,7 +531,7 @@ func ruleAggrArgReader(c *Ctx) {
 
 func init() {
 	register("C01", ruleDefWriters)
-	register("C05", ruleDefWriters)
+	register("C05", ruleDefWriters, ruleC06UnionFields, ruleC06UnionWiring)
 	register("C06", ruleDefWriters)
 }
 
